@@ -119,6 +119,7 @@ type Exec struct {
 	Samples      []map[string]uint64
 	NontrivPaths int
 	jsonDepth    int
+	fmtDepth     int
 }
 
 // FuncCalls lists every function whose SSA body was executed, with the number of activations.
@@ -807,7 +808,10 @@ func (ex *Exec) pushFrame(st *State, fn *ssa.Function, args []Value, env []Value
 	copy(fr.Regs, args)
 	g := st.g()
 	if len(g.Frames) > 400 {
-		ex.unsupported(st, "call depth")
+		// no harness program nests calls this deep by itself: unbounded recursion of the code under test (a stack
+		// overflow kills the process; confirmed or dropped by the native replay like every other finding)
+		ex.report(st, "unwind", "call depth exceeds 400 frames (unbounded recursion) in "+fn.String(), nil)
+		panic(pathEnd{"call depth"})
 	}
 	g.Frames = append(g.Frames, fr)
 }
